@@ -12,8 +12,8 @@ fn around(n: u64) -> Vec<u64> {
     v.sort(); v.dedup(); v
 }
 
-pub fn run(ctx: &mut Ctx) -> Report {
-    let mut rep = Report::new("C22", "case = (script, prev, cur, call results, key, limits grid point); limits range over {size-1,size,size+1,0,max}^3 x {soft,hard}; non-trivial = at least one limit strictly exceeded or exactly met; distinct by hash of (case shape, limit relation vector, mode)");
+pub fn run(ctx: &mut Ctx, rep: &mut Report) {
+    rep.rule = "case = (script, prev, cur, call results, key, limits grid point); limits range over {size-1,size,size+1,0,max}^3 x {soft,hard}; non-trivial = at least one limit strictly exceeded or exactly met; distinct by hash of (case shape, limit relation vector, mode)".to_string();
     let mut rng = Rng::new(ctx.seed ^ 0xC22);
     let n_cases = if ctx.thorough { 400 } else { 24 };
     let a = Peer::new("a");
@@ -125,5 +125,4 @@ pub fn run(ctx: &mut Ctx) -> Report {
             if let Some(why) = fail { rep.oracle_fail(json!({"why": why, "input": case_json(), "prev_hex": hex(&prev), "cur_hex": hex(&cur), "results_hex": hex(&raw), "bad_key": bad_key, "peer": peer.name})); }
         }}}}
     }
-    rep
 }
